@@ -116,7 +116,7 @@ func (c c03Case) placements() map[string][]string {
 		"deep-nontail":         {"zd = (n) -> if n <= 0 {\n[" + f + "]\n} else [zd(n - 1)[0]]", fmt.Sprintf("zd(%d)", c.Deep)},
 		"wide-caller":          {wide.String(), "[widecaller()[0]]"},
 		"after-loops":          {"{\nfor zq <- fromto(0, 2) zq\nfor zq, zp <- fromto(0, 2), fromto(0, 3) zq\n[" + f + "]\n}"},
-		"after-error":          {"!1 / 0", "!nothingx + 1", "!for zi <- fromto(0, 3) deep(20) + [zi]", "[" + f + "]"},
+		"after-error":          {"\x011 / 0", "\x01nothingx + 1", "\x01for zi <- fromto(0, 3) deep(20) + [zi]", "[" + f + "]"},
 		"after-growth":         {fmt.Sprintf("deep(%d)", 3000), "[" + f + "]"},
 		"later":                {"zx = " + f, "deep(200)", "zy = " + f, "[zx, zy]"},
 		"in-closure":           {"zc = () -> () -> " + f, "zk = zc()", "[zk(), zk()]"},
